@@ -31,7 +31,8 @@ ID = "C20"
 RULE = ("registry of public API calls (text/number conversion, encodings, sequence functions, interval arithmetic, genomic-data "
         "methods, table methods, stream reductions, field access / indexing / concatenation / write of lazily read chunks of every "
         "file format) x generated arguments; before/after deep byte snapshots of every argument + twin comparison for lazy chunks + "
-        "twice-application equality. Non-trivial = the arguments take a special path: a sign, '+', 'e', '.', a list-valued or "
+        "twice-application equality; an EDGE variant pushes arguments just outside the preconditions (calls that raise must leave their "
+        "arguments unchanged too). Non-trivial = the arguments take a special path: a sign, '+', 'e', '.', a list-valued or "
         "genotype column, CRLF, no final newline, gzip, several chunks, an empty row, a strand")
 EXHAUSTIVE = {"quick": False, "thorough": False}
 MODEL_OPS = {"m_str_to_int", "m_merge", "m_bincount", "m_fresh"}
@@ -1628,9 +1629,14 @@ def cases(tier, rng):
             reps = per * (4 if kind in ("chunk", "chunks") else 8 if kind in ("chunk+program", "chunk+col+fn", "chunk+field", "chunk+sel+field") else 1)
             for _ in range(reps):
                 a1 = gen_args(kind, rng)
+                variant = rng.choice(["plain", "plain", "views", "fresh:slice", "fresh:mask", "fresh:ints", "readonly", "empty", "edge", "edge"])
+                if variant == "edge":
+                    # arguments just outside the function's precondition (calls that raise must leave their arguments alone too)
+                    j = rng.randrange(len(a1))
+                    a1 = [edge_spec(a, rng) if (i == j or rng.random() < 0.3) else a for i, a in enumerate(a1)]
                 yield {"op": "call", "fn": name, "gen": kind, "args": a1,
                        "args2": [same_shape_spec(x) for x in a1] if rng.random() < 0.6 else gen_args(kind, rng),
-                       "variant": rng.choice(["plain", "plain", "views", "fresh:slice", "fresh:mask", "fresh:ints", "readonly", "empty"])}
+                       "variant": variant}
     # routines that are also executed in the Lean heap model
     for _ in range(200 if big else 40):
         yield {"op": "m_str_to_int", "rows": [_int_str(rng) for _ in range(rng.choice([1, 2, 3, 6]))]}
@@ -1731,6 +1737,112 @@ def same_shape_spec(s):
     return s
 
 
+def edge_spec(s, rng):
+    """the same argument pushed just OUTSIDE what the functions usually accept (or onto an extreme): a call may raise on it — it
+    must still leave every argument as it was"""
+    if not isinstance(s, dict):
+        return s
+    k = s.get("k")
+    if k == "strs" and s["rows"]:
+        rows = list(s["rows"])
+        i = rng.randrange(len(rows))
+        rows[i] = rng.choice([rows[i] + "x", "", "-", "+", rows[i] + ".", "1e", rows[i][:1] + "\x00" + rows[i][1:], rows[i] + "é", "N" + rows[i], rows[i] * 3])
+        return dict(s, rows=rows)
+    if k == "str":
+        return dict(s, s=rng.choice([s["s"] + "x", "", s["s"] + "\n", "é" + s["s"], s["s"][::-1] + ",,"]))
+    if k == "ints":
+        v = list(s["v"])
+        how = rng.choice(["neg", "big", "extra", "zero", "drop"])
+        if how == "extra" or not v:
+            v = v + [rng.choice([0, -1, 7])]
+        elif how == "drop":
+            v = v[:-1]
+        else:
+            v[rng.randrange(len(v))] = {"neg": -rng.choice([1, 5, 10 ** 6]), "big": rng.choice([10 ** 6, 10 ** 6 + 7]), "zero": 0}[how]
+        return dict(s, v=v)
+    if k == "floats":
+        v = list(s["v"])
+        if v:
+            v[rng.randrange(len(v))] = rng.choice([float("nan"), float("inf"), -float("inf"), -0.0, 1e308])
+        return dict(s, v=v)
+    if k == "bools":
+        v = list(s["v"])
+        return dict(s, v=(v + [True]) if rng.random() < 0.5 else v[:-1])
+    if k == "ragged" and s["rows"]:
+        rows = [list(r) for r in s["rows"]]
+        i = rng.randrange(len(rows))
+        rows[i] = rng.choice([[], rows[i] + [-1], rows[i] + [10 ** 6]])
+        return dict(s, rows=rows)
+    if k == "list":
+        return dict(s, items=[edge_spec(x, rng) if rng.random() < 0.5 else x for x in s["items"]])
+    if k == "table" and "start" in s["cols"] and "stop" in s["cols"] and s["cols"]["start"]["v"]:
+        cols = {n: dict(c) for n, c in s["cols"].items()}
+        st, sp = list(cols["start"]["v"]), list(cols["stop"]["v"])
+        i = rng.randrange(len(st))
+        how = rng.choice(["overhang", "overhang", "swap", "negative", "unsorted", "unknown_chrom", "empty_interval"])
+        if how == "overhang":
+            sp[i] = sp[i] + rng.choice([1, 5, 1000])      # (values stay small: an extreme like 2**63-1 makes np.bincount itself corrupt the heap)
+        elif how == "swap":
+            st[i], sp[i] = sp[i], st[i]
+        elif how == "negative":
+            st[i] = -rng.choice([1, 3])
+        elif how == "unsorted":
+            st, sp = st[::-1], sp[::-1]
+            for n, c in cols.items():
+                if n not in ("start", "stop") and "rows" in c:
+                    c["rows"] = list(c["rows"])[::-1]
+                elif n not in ("start", "stop") and "v" in c:
+                    c["v"] = list(c["v"])[::-1]
+        elif how == "unknown_chrom" and "chromosome" in cols:
+            rows = list(cols["chromosome"]["rows"]); rows[i] = "chrZ"; cols["chromosome"]["rows"] = rows
+        else:
+            sp[i] = st[i]
+        cols["start"]["v"], cols["stop"]["v"] = st, sp
+        return dict(s, cols=cols)
+    if k == "table":
+        cols = dict(s["cols"])
+        name = rng.choice(list(cols))
+        cols[name] = edge_spec(cols[name], rng)     # also makes columns of different lengths
+        return dict(s, cols=cols)
+    if k in ("gintervals", "glocations", "track"):
+        return dict(s, table=edge_spec(s["table"], rng))
+    if k == "genome":
+        return dict(s, sizes=dict(s["sizes"], **{rng.choice(list(s["sizes"])): rng.choice([0, 1])}))
+    if k == "dict":
+        return dict(s, v={kk: (edge_spec(v, rng) if isinstance(v, dict) and "k" in v else rng.choice([v, 0, -1])) for kk, v in s["v"].items()})
+    if k == "py":
+        v = s["v"]
+        if isinstance(v, bool):
+            return s
+        if isinstance(v, int):
+            return dict(s, v=rng.choice([0, -1, v + 1000, 10 ** 6]))
+        if isinstance(v, str):
+            return dict(s, v=rng.choice(["", v + "x", "é", v * 2]))
+        if isinstance(v, list) and v:
+            return dict(s, v=v + [v[0]] if rng.random() < 0.5 else v[:-1])
+        return s
+    if k in ("file", "path") and s.get("fmt") != "bam" and s.get("text"):
+        lines = s["text"].split("\n")
+        body = [i for i, l in enumerate(lines) if l and not l.startswith(("#", "@", ">", "+"))]
+        if body:
+            i = rng.choice(body)
+            cells = lines[i].split("\t")
+            how = rng.choice(["dropcol", "badnum", "blank", "addcol", "highbyte"])
+            if how == "dropcol" and len(cells) > 1:
+                cells = cells[:-1]
+            elif how == "badnum":
+                j = rng.randrange(len(cells)); cells[j] = cells[j] + "x"
+            elif how == "addcol":
+                cells = cells + ["extra"]
+            elif how == "highbyte":
+                j = rng.randrange(len(cells)); cells[j] = cells[j] + "é"
+            lines[i] = "\t".join(cells)
+            if how == "blank":
+                lines.insert(i, "")
+        return dict(s, text="\n".join(lines))
+    return s
+
+
 def empty_spec(s):
     """the same argument with zero rows"""
     if not isinstance(s, dict):
@@ -1796,7 +1908,7 @@ def _observe(fn, specs, views, variant, specs2=None):
         if variant and variant.startswith("fresh"):
             return _observe_fresh(fn, specs, variant.split(":")[1] if ":" in variant else "slice")
         out = _observe0(fn, specs, views, variant)
-        if specs2 is not None and variant in (None, "plain") and "unbuildable" not in out and "raised" not in out:
+        if specs2 is not None and variant in (None, "plain", "edge") and "unbuildable" not in out and "raised" not in out:
             for h in (_history(fn, specs, specs2), _receiver_history(fn, specs, specs2)):
                 if h:
                     out["mutated"] = sorted(set(out["mutated"]) | {h})
@@ -1935,11 +2047,56 @@ def _observe0(fn, specs, views, variant):
     return out
 
 
+def _in_child(thunk, limit=60):
+    """run `thunk` in a forked child and return what it returns (JSON-able). Inputs outside a function's precondition can
+    take NumPy / npstructures down with the interpreter (np.bincount of 2**63-1 corrupts the heap); a dead pool worker would
+    hang the whole check, a dead child is just an outcome."""
+    import json as _json
+    import select
+    r, w = os.pipe()
+    pid = os.fork()
+    if pid == 0:
+        code = 0
+        try:
+            os.close(r)
+            out = _json.dumps(thunk()).encode()
+            os.write(w, len(out).to_bytes(8, "little") + out)
+        except BaseException:
+            code = 1
+        finally:
+            os._exit(code)
+    os.close(w)
+    data = b""
+    try:
+        while True:
+            ready, _, _ = select.select([r], [], [], limit)
+            if not ready:
+                os.kill(pid, 9)
+                break
+            chunk = os.read(r, 1 << 16)
+            if not chunk:
+                break
+            data += chunk
+    finally:
+        os.close(r)
+        os.waitpid(pid, 0)
+    if len(data) >= 8 and len(data) - 8 == int.from_bytes(data[:8], "little"):
+        return _json.loads(data[8:].decode())
+    return {"unbuildable": "interpreter-crash-or-timeout"}
+
+
 def impl(c):
     op = c["op"]
     if op == "call":
         fn = registry()[c["fn"]][0]
         try:
+            if c.get("variant") == "edge":
+                def thunk():
+                    try:
+                        return observe(fn, c["args"], variant="edge", specs2=c.get("args2"))
+                    except Unknown as e:
+                        return {"err": "harness:unsnapshotable:" + str(e)}
+                return _in_child(thunk)
             return observe(fn, c["args"], views=bool(c.get("views")), variant=c.get("variant"), specs2=c.get("args2"))
         except Unknown as e:
             return {"err": "harness:unsnapshotable:" + str(e)}
@@ -2048,7 +2205,7 @@ def agree(c, got, exp):
         # reader limitation (a gff/gtf file with interior comment lines read with a chunk size below one line); anything
         # else means a whole argument family silently tests nothing and is reported
         chunked_gff = any(isinstance(a, dict) and a.get("fmt") in ("gff", "gtf") and a.get("chunk") for a in c.get("args", []))
-        return c.get("variant") == "empty" or (got["unbuildable"] == "RuntimeError" and chunked_gff)
+        return c.get("variant") in ("empty", "edge") or (got["unbuildable"] == "RuntimeError" and chunked_gff)
     if got.get("mutated") != [] or got.get("twice_equal") is not True:
         return False
     if "value" in exp:
